@@ -3,6 +3,7 @@
 models and prints one observation line per action.  Imports model files only.
 -/
 import DeadpoolVerif.Model.Managed
+import DeadpoolVerif.Model.Unmanaged
 
 open DeadpoolVerif
 
@@ -129,8 +130,75 @@ def parseAction (ws : List String) : Option Action :=
     | _, _ => none
   | _ => none
 
+namespace UDrv
+
+def showBack : Option Nat → String
+  | none => "-"
+  | some n => toString n
+
+def showRes : U.Res → String
+  | .ok id => s!"ok:{id}"
+  | .added => "added"
+  | .timeout b => s!"timeout:{showBack b}"
+  | .closed b => s!"closed:{showBack b}"
+  | .noRuntime => "no_runtime"
+  | .cancelled => "cancelled"
+  | .panicked => "panicked"
+
+def showEv : U.Ev → String
+  | .result op r => s!"result({op},{showRes r})"
+  | .dropped op id => s!"dropped({op},{id})"
+  | .status op m sz a w => s!"status({op},{m},{sz},{a},{w})"
+
+def wokenOf (s : U.State) : List Nat :=
+  (List.range s.ops.length).filter fun i =>
+    match s.ops[i]? with
+    | some (.get _ _ _ .queued) => s.sem.assigned.contains i || (s.sem.closed && !s.sem.queue.contains i)
+    | some (.add _ _ .queued) =>
+      s.sizeSem.assigned.contains i || (s.sizeSem.closed && !s.sizeSem.queue.contains i)
+    | _ => false
+
+def obsLine (s : U.State) (i : Nat) (logFrom : Nat) : String :=
+  let op := s.ops.getD i .done
+  let evs := (s.log.drop logFrom).map showEv
+  let nums (l : List Nat) := showList (l.map toString)
+  s!"obs op={i} lbl={op.label} susp={if op.suspended then 1 else 0} " ++
+  s!"permits={s.sem.permits} spermits={s.sizeSem.permits} closed={if s.sem.closed then 1 else 0} " ++
+  s!"sclosed={if s.sizeSem.closed then 1 else 0} size={s.size} avail={s.available} " ++
+  s!"queue={nums s.queue} hands={nums (sortNat s.hands)} returned={nums (sortNat s.returned)} " ++
+  s!"dropped={nums (sortNat s.dropped)} woken={nums (wokenOf s)} " ++
+  s!"fault={if s.fault.isSome then 1 else 0} ev={";".intercalate evs}"
+
+def parseCfg (ws : List String) : Option U.Cfg :=
+  let kvs := ws.map kv
+  match (lookup kvs "max" "").toNat?, (lookup kvs "init" "0").toNat?, parseTmo (lookup kvs "tmo" "n") with
+  | some m, some k, some t => some { maxSize := m, initial := k, rt := lookup kvs "rt" "0" == "1", timeout := t }
+  | _, _, _ => none
+
+def parseAction (ws : List String) : Option U.Action :=
+  match ws with
+  | ["start", "uget", w] =>
+    if w == "d" then some (.start .getDefault) else (parseTmo w).map fun t => .start (.get t)
+  | ["start", "utryget"] => some (.start .tryGet)
+  | ["start", "uremove", w] => (parseTmo w).map fun t => .start (.remove t)
+  | ["start", "utryremove"] => some (.start .tryRemove)
+  | ["start", "uadd"] => some (.start .add)
+  | ["start", "utryadd"] => some (.start .tryAdd)
+  | ["start", "uret", id] => id.toNat?.map fun n => .start (.ret n)
+  | ["start", "utake", id] => id.toNat?.map fun n => .start (.take n)
+  | ["start", "uclose"] => some (.start .close)
+  | ["start", "ustatus"] => some (.start .status)
+  | ["step", i, oc] =>
+    match i.toNat?, parseOutcome oc with
+    | some i, some oc => some (.step i oc)
+    | _, _ => none
+  | _ => none
+
+end UDrv
+
 structure DState where
   managed : Option State := none
+  unmanaged : Option U.State := none
 
 def handle (d : DState) (line : String) : DState × Option String :=
   let ws := (line.trimAscii.toString.splitOn " ").filter (· ≠ "")
@@ -149,9 +217,26 @@ def handle (d : DState) (line : String) : DState × Option String :=
     | _, _, _ => (d, some "bad-op")
   | "cfg" :: "managed" :: rest =>
     match parseCfg rest with
-    | some c => ({ d with managed := some (init c) }, some "cfg ok")
+    | some c => ({ managed := some (init c), unmanaged := none }, some "cfg ok")
+    | none => (d, some "bad-cfg")
+  | "cfg" :: "unmanaged" :: rest =>
+    match UDrv.parseCfg rest with
+    | some c => ({ managed := none, unmanaged := some (U.init c) }, some "cfg ok")
     | none => (d, some "bad-cfg")
   | _ =>
+    match d.unmanaged with
+    | some us =>
+      match UDrv.parseAction ws with
+      | some a =>
+        match U.step us a with
+        | some s' =>
+          let i := match a with
+            | .start _ => s'.ops.length - 1
+            | .step i _ => i
+          ({ d with unmanaged := some s' }, some (UDrv.obsLine s' i us.log.length))
+        | none => (d, some "reject")
+      | none => (d, some "bad-op")
+    | none =>
     match d.managed, parseAction ws with
     | some s, some a =>
       match step s a with
